@@ -120,6 +120,19 @@ CHECKS = {
              "entity starting at or above the line (union over a group), except @setup/@teardown; a sample is executed; "
              "FileLocationParser and --name selection are checked against own reference implementations.",
         note="Trusted: entity table from vf/program.py facts. Lines above the Feature line not compared."),
+    "C15": dict(
+        level="exploration", design="DESIGN.md 5/C15",
+        technique="property-based testing: generated runs with random subsets/orders of the built-in formatters between two recording "
+                  "formatters; oracles = event-grammar recogniser, stream predicted by the reference model, JSON vs. model, "
+                  "JsonParser round trip, plain/progress reports vs. processed steps",
+        text="Two recording formatters (first and last) must see the same event stream; it must be accepted by an independent "
+             "recogniser of the event grammar (the k-th result refers to the k-th announced step) and equal the stream predicted by "
+             "the reference model. The JSON report must parse and mirror features / shown scenarios / steps / tables / doc-strings / "
+             "statuses of the model, each status on its own element; reading it back (JsonParser, json_parser.parse on a file) must "
+             "reproduce structure and statuses; plain and progress2/3 must show every processed step once with its final status.",
+        note="Trusted: vf/refmodel.py (processed steps), recogniser and report parsers in vf/props/c15.py. Unprocessed steps carry no "
+             "status in JSON and are not compared after read-back. pretty/progress/null/rerun are exercised for crashes and stream "
+             "agreement only."),
 }
 
 PENDING_REASON = "not yet claimed in this revision: the check for this property is still under construction (see DESIGN.md 5)"
